@@ -1552,6 +1552,8 @@ val misused_class : bool -> n list -> n list
 
 val regex_prepare : n list -> n list
 
+val regex_effective : (n list -> bool) -> n list -> n list
+
 val sh_safe : n -> bool
 
 val sh_escape : n list -> n list
